@@ -20,7 +20,7 @@ import time
 from checks import common
 from simftp import conform, scenario
 from simftp import model as M
-from simftp.peers import RawPeer
+from simftp.peers import PeerGone, RawPeer, ReplyTimeout
 
 PROP = "C03"
 TREE = {"/": None, "/f": b"file-content-0123456789", "/d": None, "/d/g": b"gggg", "/d/e": None}
@@ -155,7 +155,7 @@ def run_pending_case(case):
                 viol.append({"clause": "other-accounts-tree-changed", "subject": verb, "detail": "a transfer started by anonymous changed alice's tree after USER alice without a password"})
             peer.close()
             await asyncio.sleep(1)
-            await asyncio.wait_for(server.close(), 1e4)
+            await common.close_server(server)
 
         world.run(main())
         if world.outcome not in ("ok", "budget", "deadlock"):
@@ -275,7 +275,7 @@ def run_burst_case(case):
                         viol.append({"clause": "authorised-without-its-password", "subject": "pipelined-login", "detail": f"after {case['pre']} then, in one segment, {case['burst']} (replies {replies}) the session is served (PWD {code}) as {who!r} although {who!r}'s password was never supplied"})
             peer.close()
             await asyncio.sleep(1)
-            await asyncio.wait_for(server.close(), 1e4)
+            await common.close_server(server)
 
         world.run(main())
         gc.collect()
@@ -298,7 +298,92 @@ def run_burst_case(case):
     return res
 
 
+def run_twin_case(case):
+    """Two sessions send the same command line in the same event-loop step (zero-latency
+    network): A is logged in, B is not (nothing sent, USER pending, or a refused PASS).  Whatever
+    A is entitled to, B's line is refused and the backend is not touched on B's behalf - the
+    check of one session's login state must not read another session's."""
+    sc = {"seed": case["seed"], "server": {"block_size": 16, "wait_future_timeout": 5.0, "users": spec_users("mixed"), "user_manager": case.get("manager")}, "net": {"latency": [0.0, 0.0], "send_delay": 0.0, "accept_delay": [0.0, 0.0], "seg_mode": "whole"}, "fs": {"delay": None}}
+    viol = []
+    info = {"pairs": 0}
+    world = scenario.setup_world(sc)
+    with world:
+        server = scenario.finish_setup(world, sc)
+        world.populate({k: v for k, v in TREE.items() if k != "/"})
+        a = RawPeer(world, "A", reply_timeout=100.0)
+        b = RawPeer(world, "B", reply_timeout=100.0)
+
+        async def main():
+            await server.start("127.0.0.1", 2121)
+            await a.connect()
+            await b.connect()
+            await a.cmd("USER anonymous")
+            for line in case["b_pre"]:
+                await b.cmd(line)
+            for (v, arg) in case["verbs"]:
+                line = (f"{v} {arg}".strip() + "\r\n").encode()
+                before = world.fsctl.per_label.get("B", 0)
+                first, second = (b, a) if case["b_first"] else (a, b)
+                first.note("C", line.decode().strip())
+                first.writer.write(line)
+                for _ in range(case["stagger"]):
+                    await asyncio.sleep(0)
+                second.note("C", line.decode().strip())
+                second.writer.write(line)
+                try:
+                    ra = (await a.reply(50.0))[0]
+                    while ra[0] == "1":
+                        ra = (await a.reply(50.0))[0]
+                    rb = (await b.reply(50.0))[0]
+                except (ReplyTimeout, PeerGone) as e:
+                    viol.append({"clause": "no-reply", "subject": "twin:" + v, "detail": f"{v!r} sent by a logged-in and a not-logged-in session in the same step: {type(e).__name__}"})
+                    break
+                info["pairs"] += 1
+                touched = world.fsctl.per_label.get("B", 0) - before
+                if rb[0] in "123" and v not in ("USER", "PASS", "QUIT", "SYST", "REST"):
+                    viol.append({"clause": "served-before-login", "subject": "twin:" + v, "detail": f"session B ({case['b_pre'] or 'nothing sent'}) and the logged-in session A sent {line!r} in the same step ({'B' if case['b_first'] else 'A'} first, {case['stagger']} steps apart): B was answered {rb} (A {ra})"})
+                elif touched:
+                    viol.append({"clause": "backend-touched-before-login", "subject": "twin:" + v, "detail": f"session B ({case['b_pre'] or 'nothing sent'}) next to the logged-in session A, {line!r}: {touched} backend calls on B's behalf (reply {rb})"})
+            a.close()
+            b.close()
+            await asyncio.sleep(1)
+            await common.close_server(server)
+
+        world.run(main())
+        gc.collect()
+        if world.outcome == "deadlock":
+            viol.append({"clause": "hang", "subject": "deadlock", "detail": "simulation deadlocked"})
+        elif world.outcome not in ("ok", "budget"):
+            raise common.HarnessError(f"scenario failed: {world.outcome}: {world.error!r}")
+        seen = set()
+        out = []
+        for v in viol:
+            key = (v["clause"], v["subject"])
+            if key not in seen:
+                seen.add(key)
+                out.append(v)
+        res = {"digest": world.digest([tuple(x[1:]) for x in a.transcript] + [tuple(x[1:]) for x in b.transcript]), "nontrivial": info["pairs"] > 0, "vtime": world.loop.time() - 1000.0, "events": world.net.seq, "steps": world.loop.steps, "outcome": world.outcome, "counters": {"probe.same_line_from_a_logged_in_and_a_not_logged_in_session_in_one_step": info["pairs"]}, "violations": out}
+        if case.get("want_sample"):
+            res["sample"] = {"case": case}
+    return res
+
+
+def gen_twin_cases(seed):
+    out = []
+    i = 0
+    plain = [(v, a) for (v, a) in VERB_ARGS if v not in M.TRANSFER and v not in ("PASV", "EPSV", "ABOR")]
+    for b_pre in ([], ["USER u2"], ["USER u2", "PASS nope"]):
+        for b_first in (True, False):
+            for stagger in (0, 1, 2, 3):
+                for mgr in ("memory", "slow"):
+                    out.append({"kind": "twin", "seed": seed * 10000 + 5000 + i, "b_pre": b_pre, "b_first": b_first, "stagger": stagger, "verbs": plain, "manager": mgr})
+                    i += 1
+    return out
+
+
 def run_case(case):
+    if case.get("kind") == "twin":
+        return run_twin_case(case)
     if case.get("kind") == "pending":
         return run_pending_case(case)
     if case.get("kind") == "burst":
@@ -361,7 +446,7 @@ def run_case(case):
             info["steps"] = steps
             peer.close()
             await asyncio.sleep(1)
-            await asyncio.wait_for(server.close(), 1e4)
+            await common.close_server(server)
 
         world.run(main())
         gc.collect()
@@ -482,7 +567,7 @@ def main(argv=None):
         print("not reproduced")
         return 0
     quick = a.tier == "quick"
-    ev = common.Evidence(PROP, a.tier, a.seed, "exploration", "core: every verb x login state {none, USER pending, wrong PASS, logged then re-USER (pending / unknown user), logged, PASS first, re-USER same user} x 3 user tables (exhaustive over that grid); random: seeded histories (3..25 commands) interleaving USER/PASS (known, unknown, password-less, protected, right/wrong passwords) with every verb; non-trivial = at least one command was sent while the model says 'not logged in'; distinct = distinct run digests The core grid runs under three user managers (stock, suspending, digest-based); pipelined login bursts (several USER/PASS lines in one segment) run under suspending managers.")
+    ev = common.Evidence(PROP, a.tier, a.seed, "exploration", "core: every verb x login state {none, USER pending, wrong PASS, logged then re-USER (pending / unknown user), logged, PASS first, re-USER same user} x 3 user tables (exhaustive over that grid); random: seeded histories (3..25 commands) interleaving USER/PASS (known, unknown, password-less, protected, right/wrong passwords) with every verb; non-trivial = at least one command was sent while the model says 'not logged in'; distinct = distinct run digests The core grid runs under three user managers (stock, suspending, digest-based); pipelined login bursts (several USER/PASS lines in one segment) run under suspending managers; twin runs: a logged-in and a not-logged-in session send the same line in the same event-loop step (0..3 steps apart, either one first).")
     rep = common.Reporter(PROP, ev)
     deadline = time.time() + (a.budget or (60 if quick else 1200))
     n = 3000 if quick else 400000
@@ -495,6 +580,7 @@ def main(argv=None):
                         core.append({"kind": "pending", "seed": a.seed * 1000 + vi * 50 + len(core), "verb": verb, "passive": pv, "then_pass": tp, "delay": d, "fs_delay": [0.0001, 0.002] if d else None})
         def gen():
             yield from core
+            yield from gen_twin_cases(a.seed)
             for i in range(n):
                 s = a.seed * 1_000_000 + i
                 rnd = random.Random(s * 5 + 2)
